@@ -293,10 +293,20 @@ class SchedEngine(Engine):
             pol['hold'] = r.choice([10, 40, 120, 400])
             if writers and r.random() < 0.7:
                 threads[pol['writer']][0] = {'op': 'goc', 'key': 'k0', 'force': True}
-        return {'engine': 'schedsim', 'ctype': r.choice(['json', 'json', 'npy', 'df']), 'threads': threads, 'policy': pol, 'choices': None,
-                'chunks': r.choice([1, 2, 3]), 'big': r.choice([False, False, True, 'mixed', 'mixed']), 'pre': r.random() < 0.6, 'own_cache': r.random() < 0.8,
-                # simulated duration of one computation (seconds on the simulated clock that lock timeouts and polls read)
-                'compute_s': r.choice([0, 0, 0.3, 15, 45, 300, 4000])}
+        scn = {'engine': 'schedsim', 'ctype': r.choice(['json', 'json', 'npy', 'df']), 'threads': threads, 'policy': pol, 'choices': None,
+               'chunks': r.choice([1, 2, 3]), 'big': r.choice([False, False, True, 'mixed', 'mixed']), 'pre': r.random() < 0.6, 'own_cache': r.random() < 0.8,
+               # simulated duration of one computation (seconds on the simulated clock that lock timeouts and polls read)
+               'compute_s': r.choice([0, 0, 0.3, 15, 45, 300, 4000])}
+        import random as _random
+        r2 = _random.Random(r.getrandbits(32))
+        if scn['ctype'] in ('json', 'df') and r2.random() < 0.3:
+            # a forced call whose computer hands back a value the cache refuses before touching the file (None where None is not
+            # allowed, something that is no DataFrame): that call fails, the stored entry and everybody else are unaffected
+            if scn['ctype'] == 'json':
+                scn['ctype'] = 'json_nonone'
+            t = r2.randrange(nt)
+            threads[t].insert(r2.randint(0, len(threads[t])), {'op': 'goc', 'key': 'k0', 'force': True, 'refuse': True})
+        return scn
 
     # ------------------------------------------------------------------------------------------ execution
     def execute(self, scn, ctx):
@@ -305,7 +315,8 @@ class SchedEngine(Engine):
         scn_run = copy.deepcopy(scn)
         sched = Sched(scn_run, len(scn['threads']))
         ctype = scn['ctype']
-        cls = {'json': tc.JsonCache, 'npy': tc.NumpyArrayCache, 'df': tc.DataFrameCache}[ctype]
+        cls = {'json': tc.JsonCache, 'npy': tc.NumpyArrayCache, 'df': tc.DataFrameCache, 'json_nonone': lambda d_: tc.JsonCache(d_, allow_nones=False)}[ctype]
+        ctype = 'json' if ctype == 'json_nonone' else ctype
         cdir = os.path.join(d, 'c')
         calls = []
         comps = []
@@ -374,7 +385,14 @@ class SchedEngine(Engine):
                     rec = {'thread': i, 'idx': ci, 'op': call['op'], 'key': call['key'], 'force': call.get('force', False), 'invoke': sched.step, 'computed': []}
                     calls.append(rec)
 
+                    if call.get('refuse'):
+                        rec['refuse'] = True
+
                     def computer(rec=rec, call=call):
+                        if call.get('refuse'):
+                            sched.marks[i] = 'computing'
+                            sched.yield_point('compute')
+                            return None if scn['ctype'] == 'json_nonone' else {'not': 'a frame'}
                         counter[0] += 1
                         vid = counter[0]
                         comp = {'vid': vid, 'key': call['key'], 'start': sched.step, 'thread': i, 'end': None}
@@ -466,6 +484,8 @@ class SchedEngine(Engine):
             d('I-progress', 'callers did not all return (deadlock / lost wake-up)', hung=obs['hung'], deadlock=obs['deadlock'])
         incomplete = [c for c in calls if 'return' not in c]
         for c in calls:
+            if c.get('refuse'):
+                continue      # its own value was refused: it is expected to fail; what it must not do is harm the entry or the others
             if 'exc' in c:
                 d('I-no-failure', f'{c["op"]} on {c["key"]} by caller {c["thread"]} failed although no computer raises',
                   exc=c['exc'], call=[c['thread'], c['idx']])
